@@ -329,11 +329,11 @@ struct GatedDfs : sched::Dfs { // no preemption once the drain phase has started
 static void e3_dfs(const std::string &tag, const std::vector<Script> &scripts, int bound, uint64_t max_runs) {
 	std::string mode = "e3:dfs:" + tag;
 	static unsigned index = 0;
-	if(!want_mode(mode.c_str()) || (index++ % opt.nshards) != opt.shard) return;
+	if(!want_mode(mode.c_str()) || (opt.mode.empty() && (index++ % opt.nshards) != opt.shard)) return;
 	GatedDfs dfs(bound);
 	long long i = 0; bool complete = false;
 	do {
-		if(want_case(i)) e3_run(mode.c_str(), i, scripts, dfs, &dfs.no_preempt, 20000);
+		e3_run(mode.c_str(), i, scripts, dfs, &dfs.no_preempt, 20000);
 		i++;
 		if(!rec.violations.empty()) break;
 		if(!dfs.advance()) { complete = true; break; }
